@@ -6,7 +6,8 @@ i=0
 for d in seeded/*/; do
   i=$((i+1)); [ -n "${SHARD:-}" ] && [ $((i % ${NSHARD:-1})) -ne "$SHARD" ] && continue
   n=$(basename $d); id=$(/venv/bin/python -c "import json;print(json.load(open('$d/meta.json'))['breaks_property'])")
-  out=$(LINES_MAX=400 selftest/run_mutant.sh $d/patch.diff $id quick 2>&1)
+  base=$(/venv/bin/python -c "import json;print(json.load(open('$d/meta.json')).get('base_commit',''))")
+  out=$(MUT_BASE=$base LINES_MAX=400 selftest/run_mutant.sh $d/patch.diff $id quick 2>&1)
   nv=$(echo "$out" | grep -c "^VIOLATION"); ex=$(echo "$out" | grep "^exit=" | cut -d= -f2)
   first=$(echo "$out" | grep "  detail:" | head -1 | cut -c11-260)
   /venv/bin/python - "$d/meta.json" "$nv" "$ex" "$first" <<'PY'
